@@ -105,6 +105,12 @@ func VH_C03_api() {
 	ff := FeatureSlice{}
 	ff = ff.Insert(Feature{"source", Range(0, L), Props{[]string{"tag", "src"}}})
 	ff = ff.Insert(Feature{"gene", loc, Props{[]string{"tag", "f"}}})
+	var src2 Location
+	if op == 2 {
+		// a second source feature (as Concat of two records produces)
+		src2 = []Location{Range(0, 1), Range(L-1, L), Range(1, 3)}[vChoice("s2", 3)]
+		ff = ff.Insert(Feature{"source", src2, Props{[]string{"tag", "src2"}}})
+	}
 	seq := Sequence(New(nil, ff, data))
 	as := vAtoms(loc)
 	x := vIntIn("x", 0, L)
@@ -204,11 +210,28 @@ func VH_C03_api() {
 		vAssert("window-feature-rev", vCovS(bs, x, true) == vCovS(as, srcpos, true))
 	}
 	for _, g := range out.Features() {
+		vAssert("every-location-inside-the-slice", vInRange(vAtoms(g.Loc), wlen))
 		if g.Key == "source" {
 			for _, a := range vAtoms(g.Loc) {
 				vAssert("source-not-partial", vAnd(!a.p5, !a.p3))
 			}
 		}
+	}
+	// a feature (source or not) that shares no residue with the window and has no site inside it is dropped
+	{
+		s2 := vAtoms(src2)
+		touches := false
+		for k := 0; k <= wlen; k++ {
+			pos := (ns + k) % L
+			if k < wlen {
+				touches = vOr(touches, vCov(s2, pos))
+			}
+		}
+		_, n2 := vFindTagged(out.Features(), "src2")
+		if ne >= ns {
+			vAssert("non-overlapping-source-dropped", vImplies(vAnd(!touches, vOr(s2[0].e <= ns, ne <= s2[0].s)), n2 == 0))
+		}
+		vAssert("overlapping-source-kept", vImplies(touches, n2 == 1))
 	}
 	vAssert("argument-unchanged", len(seq.Bytes()) == L)
 	vObserve("outlen", len(got))
